@@ -431,7 +431,9 @@ PROPS["C04"] = dict(
     kani=[dict(harness="c19_needs_transfer_is_quick_check", repo_fn="src/bin/copia/plan.rs needs_transfer", desc="needs_transfer(src, dst) == (dst absent or size differs or whole-second mtime differs), all inputs")],
     twins=[dict(name="delivers_plan", repo_fn="src/bin/copia/incremental.rs run_local/run_remote (whole run)", quick=1, thorough=1, needs_cli=True,
                 contract="`copia sync -r` on the real binary, three directions (ssh stand-in) x five flag sets ({}, --delete, --delete --exclude '*.log', --exclude 'sub dir', --delete -j 4), one tree of 15 awkward names (spaces, both quotes, backslash, $, glob characters, leading dash, unicode, NEWLINES in a file name, a directory name and a stale name, nesting, dot file) in the four destination states {absent, same size+mtime, other size, other mtime} plus four destination-only files: exit 0; the destination equals the plan of the property statement (planned files byte-identical with the source's whole-second mtime, matched files left exactly as they were, with --delete exactly the non-excluded destination-only files removed); the source is unmodified; no staging file remains; two bystander files in the (remote) working directory are untouched",
-                bounded="the end-to-end statement is about run_local/run_remote (tokio::spawn, Semaphore, ssh children) and remote shell commands, which have no contract; this run stands in. Bound: ONE tree (15 + 4 files), 5 flag sets, 3 directions, -j 2 and 4; remote = local sh through an ssh stand-in")],
+                bounded="the end-to-end statement is about run_local/run_remote (tokio::spawn, Semaphore, ssh children) and remote shell commands, which have no contract; this run stands in. Bound: ONE tree (15 + 4 files), 5 flag sets, 3 directions, -j 2 and 4; remote = local sh through an ssh stand-in"),
+           dict(name="parse_remote_meta_output", repo_fn="src/bin/copia/meta.rs parse_remote_meta_output", quick=2, thorough=60,
+                contract="the remote listing parser returns, for every well-formed `size TAB mtime[.frac] TAB ./path NUL` record, exactly (path, size, whole-second mtime) - checked against an independent reference on generated listings, fractions at the edges of a second included")],
     fallback_searches=["delivers_plan"],
     clauses={
         "build_plan / needs_transfer / is_excluded / glob_match": "the plan: transfer = sorted non-excluded source paths absent from the destination or differing in size or whole-second mtime; delete = [] without the flag, else the sorted non-excluded destination paths absent from the source (shared with C19/C15)",
